@@ -21,6 +21,18 @@ def gen(tier, seed):
         r = rng.fork(i)
         js = schematext.gen_schema_json(r, max_depth=r.choice([1, 2, 2, 3]))
         texts['s%d' % i] = schematext.dumps(js, r)
+    # names, namespaces and aliases in every spelling: dotted name / namespace attribute / inherited, relative and
+    # qualified aliases, on records, enums, fixed and logical fixed, at top level and nested (the serialised form spells
+    # the namespace out: parsed again it must denote the same names and aliases)
+    k = 0
+    for kind, extra in (('record', {'fields': []}), ('enum', {'symbols': ['A']}), ('fixed', {'size': 2}),
+                        ('fixed', {'size': 12, 'logicalType': 'duration'}), ('fixed', {'size': 16, 'logicalType': 'uuid'})):
+        for naming in ({'name': 'x.y.Z'}, {'name': 'Z', 'namespace': 'x.y'}, {'name': 'x.y.Z', 'namespace': 'other'}, {'name': 'Z'}):
+            for aliases in (['A'], ['p.q.A'], ['A', 'x.y.B'], ['.A']):
+                d = dict({'type': kind}, **naming); d.update(extra); d['aliases'] = aliases
+                texts['n%d' % k] = json.dumps(d); k += 1
+                texts['n%d' % k] = json.dumps({'type': 'record', 'name': 'Outer', 'fields': [{'name': 'f', 'type': d}]}); k += 1
+                texts['n%d' % k] = json.dumps({'type': 'record', 'name': 'Outer', 'namespace': 'o.n', 'fields': [{'name': 'f', 'type': {'type': 'array', 'items': d}}]}); k += 1
     # the witnesses of the known classes first
     texts['k0'] = '{"type":"record","name":"R","namespace":"ns","fields":[{"name":"f","type":{"type":"fixed","name":"F","namespace":"","size":1}}]}'
     return texts
@@ -52,12 +64,16 @@ def judge(run, texts, obs, model):
         # the model reparses its own serialisation: a difference there is a behaviour of the modelled code
         m_ok = m is not None and tag(m) == 'ok'
         model_roundtrips = m_ok and tag(m[5]) == 'ok' and show(m[5][1]) == show(s1)
+        # the known class (F19): a null-namespace name inside a namespaced type; the faithful model must show the same
+        # loss (its own re-parse equals the implementation's) - anything else is reported as it is
+        null_ns = fw.null_ns_schema(txt) or '"namespace":""' in txt.replace(' ', '')
         if tag(again) != 'ok':
-            cls = None if model_roundtrips or not m_ok or tag(m[5]) == 'ok' else 'embedded-schema-null-namespace'
+            cls = 'embedded-schema-null-namespace' if (null_ns and m_ok and not model_roundtrips and tag(m[5]) != 'ok') else None
             run.fail(cls or 'reparse-fails', 'the serialised schema %s does not parse' % j1t[:160], case)
         else:
             if show(again[1]) != show(s1) or again[3] != '1':
-                cls = None if model_roundtrips else 'embedded-schema-null-namespace'
+                same_as_model = m_ok and tag(m[5]) == 'ok' and show(m[5][1]) == show(again[1])
+                cls = 'embedded-schema-null-namespace' if (null_ns and not model_roundtrips and same_as_model) else None
                 run.fail(cls or 'reparse-differs', 'parsed again the schema is %s, it was %s' % (show(again[1])[:120], show(s1)[:120]), case)
             elif again[2] != j1:
                 run.fail('second-serialisation-differs', '%s then %s' % (j1t[:100], unhx(again[2]).decode('utf-8', 'replace')[:100]), case)
